@@ -198,8 +198,14 @@ class GCWorld:
         j = 0
         for c in ik:
             pc = plain(c)
+            if pc[0] == "x" and pc[1] == "" and j < len(mk) and mk[j][0] == "x" and mk[j][2] == "":
+                # a text node whose content is "" may be among the children (as an empty text node) ...
+                out.append(mk[j])
+                self.note(mk[j], c, new_from, found)
+                j += 1
+                continue
             while j < len(mk) and mk[j][0] == "x" and mk[j][2] == "":
-                out.append(mk[j])  # a text node whose content is "" is not among the children
+                out.append(mk[j])  # ... or not (what the library does with emptied text nodes is not C04's subject)
                 j += 1
             if j >= len(mk):
                 raise Problem(f"surplus child {pc} under node {E.tid(mnode)}")
@@ -480,6 +486,21 @@ def run_history(run: Run, stream, case, rows):
     return problem
 
 
+UNRAISABLE: list = []
+
+
+def install_unraisable_hook():
+    """exceptions raised inside gc callbacks are 'unraisable' (printed, not propagated); they are recorded as strings
+    (keeping the exception object would keep frames, and with them nodes, referenced)"""
+    import sys
+    import traceback
+
+    def hook(u):
+        UNRAISABLE.append("".join(traceback.format_exception_only(u.exc_type, u.exc_value)).strip() + " in " + str(getattr(u.object, "__qualname__", u.object))[:80])
+
+    sys.unraisablehook = hook
+
+
 def empty_in_chain(run: Run, stream):
     """text nodes with empty content inside a chain of adjacent text nodes: once the program has dropped its references
     and a collection has coalesced the chain, the element's text is the concatenation of what was added. (Only the state
@@ -488,17 +509,30 @@ def empty_in_chain(run: Run, stream):
     from delb import Document
 
     rng = run.rng
+    for where in ("data", "tail"):  # the replay of the fixed finding emptied-head-text-node-loses-chain comes first
+        for later in (True, False):
+            empty_chain_case(run, stream, {"empty_in_chain": ["h", ""], "where": where, "set_later": later, "empty_head": True})
+            empty_chain_case(run, stream, {"empty_in_chain": ["b"], "where": where, "set_later": later, "empty_head": True})
     for _ in range(40):
         parts = [rng.choice(["a", "bc", "", "", " d "]) for _ in range(rng.randint(2, 5))]
         if not parts[0]:
             parts[0] = "h"
         where = rng.choice(["data", "tail"])
-        case = {"empty_in_chain": parts, "where": where, "set_later": rng.random() < 0.4}
+        case = {"empty_in_chain": parts, "where": where, "set_later": rng.random() < 0.4, "empty_head": rng.random() < 0.35}
+        empty_chain_case(run, stream, case)
+
+
+def empty_chain_case(run: Run, stream, case):
+    from delb import Document
+
+    if True:
+        parts, where = case["empty_in_chain"], case["where"]
         gc.collect()
         doc = Document("<r><p>x<q/>t</p></r>")
         root = doc.root
         p = root[0]
         anchor = p[0] if where == "data" else p[2]
+        head_text = "x" if where == "data" else "t"
         if case["set_later"]:
             added = anchor.add_following_siblings(*[s or "tmp" for s in parts])
             for node, s in zip(added, parts):
@@ -507,17 +541,32 @@ def empty_in_chain(run: Run, stream):
             del added, node
         else:
             anchor.add_following_siblings(*parts)
+        if case["empty_head"]:
+            # the text node at the head of the chain (the one lxml holds as .text / .tail) is emptied: the nodes chained
+            # to it keep their content
+            anchor.content = ""
+            head_text = ""
         del anchor, p
+        seen = len(UNRAISABLE)
         gc.collect()
         gc.collect()
-        want = "<r><p>x" + ("".join(parts) if where == "data" else "") + "<q/>t" + ("".join(parts) if where == "tail" else "") + "</p></r>"
-        want = want.replace(" d ", " d ")
+        n_unraisable = len(UNRAISABLE) - seen
+        x, t = (head_text, "t") if where == "data" else ("x", head_text)
+        want = "<r><p>" + x + ("".join(parts) if where == "data" else "") + "<q/>" + t + ("".join(parts) if where == "tail" else "") + "</p></r>"
         got = str(root)
+        if n_unraisable:
+            run.violation(stream, case, {"why": "a collection ended with an exception in the wrapper cache's callback", "exception": UNRAISABLE[seen]})
         run.case(stream, case, "" in parts)
         run.count("empty text in chain", where)
         if got != want:
             run.violation(stream, case, {"why": "text is lost when a chain with an empty text node is coalesced", "got": got, "want": want})
         del root, doc
+        if n_unraisable:
+            # the wrapper whose callback raised is never evicted and would raise again at every later collection:
+            # the cases are kept independent of each other
+            from _delb.nodes import _wrapper_cache
+
+            _wrapper_cache.wrappers.clear()
 
 
 def compare_with_model(run: Run, rows):
@@ -558,8 +607,9 @@ def pinned_plan(world, k):
 
 
 def empty_content_plan(world, k):
-    """a text node that is held without its element is emptied (it leaves the tree, its element has no text there any
-    more), collections run, then it gets content again and nodes are added next to it through the held reference"""
+    """a text node that is held without its element is emptied (whether an empty text node stays among the children is
+    not C04's subject, `align` accepts both), collections run, then it gets content again and nodes are added next to it
+    through the held reference"""
     cands = []
     for p, n in E.walk(world.mirror.groups[0]):
         if n[0] != "x" or not p:
@@ -573,7 +623,7 @@ def empty_content_plan(world, k):
         return []
     t = cands[k % len(cands)]
     world.held[t] = world.resolve(t)
-    return [{"op": "set_content", "target": t, "s": ""}, {"op": "merge", "target": 0},
+    return [{"op": "set_content", "target": t, "s": ""},
             {"op": "set_content", "target": t, "s": "N"},
             {"op": "add_following", "target": t, "items": [{"str": "R"}]},
             {"op": "add_following", "target": t, "items": [{"def": ["n", [], []]}]}]
@@ -664,6 +714,7 @@ def corpus():
 
 def check(run: Run, lean: dict) -> int:
     common.use_repo()
+    install_unraisable_hook()
     n = 300 if run.tier == "quick" else 12000
     run.extra["rule"] = (
         "random Legal edit histories (4-16 calls) over 12 seed documents; the program holds a random subset of the nodes "
@@ -684,6 +735,10 @@ def check(run: Run, lean: dict) -> int:
     for c in micro_cases(run.rng, n // 3, MICRO_DOCS if run.tier == "quick" else MICRO_DOCS + E.DOCS):
         run_history(run, "single call, collections inside", c, rows)
     empty_in_chain(run, "empty text in a chain")
+    if UNRAISABLE:
+        run.count("unraisable exceptions in callbacks", len(UNRAISABLE))
+        if not any("callback" in str(v.get("detail", "")) for v in run.violations):
+            run.violation("any", {"unraisable": UNRAISABLE[:3]}, {"why": "a garbage collection ended with an exception in a gc callback"})
     if ok:
         compare_with_model(run, rows)
     return run.finish(lean, LEVEL, ASSUME, search=search)
@@ -704,7 +759,12 @@ def replay(payload: dict) -> int:
     bad = 0
     for f in payload.get("failing", []):
         probe = Run("C04", "quick", 0)
-        p = run_history(probe, "replay", f["case"], [])
+        if "empty_in_chain" in f["case"]:
+            install_unraisable_hook()
+            empty_chain_case(probe, "replay", f["case"])
+            p = [v.get("detail") for v in probe.violations]
+        else:
+            p = run_history(probe, "replay", f["case"], [])
         print(json.dumps({"case": f["case"], "detail": p}, ensure_ascii=False))
         bad += bool(p)
     return 1 if bad else 0
